@@ -152,7 +152,7 @@ func (p *Program) respTypes(fn *ssa.Function, depth int, seen map[*ssa.Function]
 	defer delete(seen, fn)
 	eachInstr(fn, func(in ssa.Instruction) {
 		r, ok := in.(*ssa.Return)
-		if !ok || len(r.Results) == 0 {
+		if !ok || len(r.Results) == 0 || !isReturn(in) {
 			return
 		}
 		ts, unk := p.valueRespTypes(r.Results[0], depth, seen)
